@@ -12,6 +12,10 @@ ENV = dict(os.environ, GOFLAGS="-mod=mod", GOPROXY="off", GOSUMDB="off", GOTOOLC
 GROUPS = {
     "accounts": dict(files=[("persist/sqlite/accounts.go", None), ("host/accounts/accounts.go", None), ("host/accounts/budget.go", None)], checks=["C04", "C11"]),
     "volumes": dict(files=[("persist/sqlite/volumes.go", None), ("persist/sqlite/sectors.go", None), ("host/storage/storage.go", r"^(writeSector|Write|StoreSector|ReadSector|Sync|RemoveSector|migrateSector|growVolume|shrinkVolume|ResizeVolume|RemoveVolume|AddVolume|PruneSectors|ProcessActions|AddTemporarySectors|SetReadOnly)$")], checks=["C02", "C08"]),
+    "manager": dict(files=[("host/contracts/manager.go", None), ("persist/sqlite/contracts.go", r"(?i)^(AddContract|AddV2Contract|RenewContract|RenewV2Contract|ReviseV2Contract|ReviseContract|renewContract|renewV2Contract|insertContract|insertV2Contract|reviseV2Contract|updateContractUsage|updateV2ContractUsage|incrementContractUsage)")], checks=["C03", "C13", "C05", "C10"]),
+    "metrics": dict(files=[("persist/sqlite/metrics.go", None), ("persist/sqlite/recalc.go", None)], checks=["C05", "C08", "C04"]),
+    "settingsstore": dict(files=[("persist/sqlite/settings.go", None), ("persist/sqlite/webhooks.go", None), ("webhooks/webhooks.go", None), ("host/settings/pin/pin.go", r"^(Update|NewManager|Pinned)$")], checks=["C18", "C09"]),
+    "volstore": dict(files=[("host/storage/volume.go", None), ("host/storage/storage.go", r"^(writeSector|Write|StoreSector|ReadSector|Sync|RemoveSector|migrateSector|growVolume|shrinkVolume|ResizeVolume|RemoveVolume|AddVolume|PruneSectors|ProcessActions|AddTemporarySectors|SetReadOnly|loadVolumes|Close)$")], checks=["C02", "C08"]),
     "expiry": dict(files=[("persist/sqlite/contracts.go", r"(?i)expire"), ("persist/sqlite/sectors.go", r"(?i)expire|prune|temp")], checks=["C08", "C02"]),
     "sectors": dict(files=[("host/contracts/contracts.go", None), ("persist/sqlite/contracts.go", r"(?i)sector|revise|renew|root|trim|swap|append")], checks=["C03", "C13"]),
     "revision": dict(files=[("rhp/contracts.go", None), ("rhp/v2/contracts.go", None), ("rhp/v3/contracts.go", None)], checks=["C07", "C12"]),
